@@ -165,13 +165,15 @@ def Cipher.tryCurrentPos (p : Profile) (c : Cipher) (t : SeekTy) : Out (Option N
   let total := match c.v.layout with
     | .ietf => SMALL_LEN
     | _ => BIG_LEN
-  let blocks := wsub64 total c.buf.len
+  let blocks :=
+    if (c.v.layout != .ietf) && c.buf.len == 0 && !c.buf.fresh then 2 ^ 64
+    else wsub64 total c.buf.len
   let have_ := c.buf.hav
   if have_ > 0 then
     if blocks = 0 then
       match p with
       | .debug => .panic "attempt to subtract with overflow"
-      | .release => .ok (fromBlockByte t (2 ^ 64 - 1) (64 - have_.toNat))
+      | .release => .ok (fromBlockByte t (2 ^ 128 - 1) (64 - have_.toNat))
     else if have_ > 64 then .panic "attempt to subtract with overflow"
     else .ok (fromBlockByte t (blocks - 1) (64 - have_.toNat))
   else
